@@ -1,8 +1,11 @@
 """C20 — FL, CL and RTL example processors agree with the ISA on every program; checksum FL/CL/RTL agree.
 
 proof:          lean/PymtlVerif/Props/C20.lean (ISA model written from tinyrv0-isa.md: encoding round trip,
-                interpreter invariants; checksum FL = RTL = spec for every word list).  PARTIAL: no theorem
-                relates ProcFL / ProcCL / ProcRTL to the ISA model — that tie is this differential execution.
+                interpreter invariants; checksum FL = RTL = spec for every word list); Props/C20p.lean (five-stage ProcRTL refines
+                the ISA, see c20_pipe.py); Props/C20fGen.lean / C20cGen.lean (ProcFL's block = the ISA step for every state, the
+                TinyRV0Inst accessors / name decoder, ProcCL's execute semantics -- about definitions regenerated from the Python
+                source on every run, see c20_procfl.py).  PARTIAL: ProcCL's cycle-level timing and the FL / CL / RTL adapters
+                are tied by this differential execution only.
 correspondence: random terminating TinyRV0 programs, assembled with the repo's assembler, run on ProcFL, ProcCL
                 and ProcRTL inside the repo's TestHarness under random memory latency / stall probability /
                 src / sink delays, vs `run` of Model/TinyRV0.lean (proc2mngr sequence, final 1MB memory image,
@@ -17,10 +20,11 @@ from ..common import leanio
 from ..common.leanio import InfraError
 from . import c20_util as u
 from . import c20_pipe
+from . import c20_procfl
 
 PID = 'C20'
-DRIVERS = ['rv'] + c20_pipe.DRIVERS
-MODULE = ['PymtlVerif.Props.C20'] + c20_pipe.MODULES
+DRIVERS = ['rv'] + c20_pipe.DRIVERS + c20_procfl.DRIVERS
+MODULE = ['PymtlVerif.Props.C20'] + c20_pipe.MODULES + c20_procfl.MODULES
 THEOREMS = ['PV.C20.' + t for t in [
   'decode_encode', 'encode_injective', 'decode_iff', 'encode_lt', 'decode_zero',
   'imm12_sign_extended', 'imm13_sign_extended',
@@ -30,29 +34,31 @@ THEOREMS = ['PV.C20.' + t for t in [
   'xcel_reg_stable', 'xcel_reg_init', 'xcel_access_frame', 'execX_ok', 'stepX_ok', 'initX_ok', 'runX_ok',
   'x0_stepX', 'x0_runX', 'runX_out_prefix', 'runX_count',
   'cksum_fl_eq_spec', 'cksum_rtl_eq_spec', 'cksum_agree', 'cksum_units_agree', 'cksum_msg_agree',
-  'unpack_pack_words', 'cksum_lt']] + c20_pipe.THEOREMS
-THEOREM_MODULE = dict(c20_pipe.THEOREM_MODULE)
+  'unpack_pack_words', 'cksum_lt']] + c20_pipe.THEOREMS + c20_procfl.THEOREMS
+THEOREM_MODULE = {**c20_pipe.THEOREM_MODULE, **c20_procfl.THEOREM_MODULE}
 TRUSTED = [
   'Model/TinyRV0.lean is a reading of tinyrv0-isa.md (decode table, sign-extended I/S/B immediates, little-endian '
   'byte memory, x0 = 0, mngr2proc dequeue / proc2mngr enqueue, reset vector 0x200); CSRR/CSRW are taken as the '
   'pseudo-instructions csrrs rd,csr,x0 / csrrw x0,csr,rs1 (unused register field must be 0, as in the repo\'s encoding table)',
   'accelerator CSRs 0x7E0..0x7FF: the ISA document leaves their meaning to the accelerator; StateX / execX / runX model the tutorial\'s '
   'NullXcel.py as a function (ONE register xr0 behind all 32 numbers, 0 at power-on); its request queue / handshake is not modelled',
-  'ProcFL / ProcCL and the FL/CL/RTL adapters are related to the ISA model by this run\'s differential execution only; the '
+  'the FL/CL/RTL adapters, the test memory / source / sink / accelerator around the processors and ProcCL\'s cycle-level timing are related '
+  'to the ISA model by this run\'s differential execution only; ProcFL\'s block, the TinyRV0Inst accessors and ProcCL\'s execute semantics are '
+  'regenerated from the source and proved equal to the ISA model (Props/C20fGen.lean, C20cGen.lean, see c20_procfl.TRUSTED); the '
   'five-stage ProcRTL is modelled cycle by cycle in Model/Pipe.lean (theorems in Props/C20p.lean, see c20_pipe.TRUSTED for what '
   'is proved about it and what still rests on differential execution)',
   'Model/Cksum.lean follows ChecksumFL.checksum, ChecksumRTL (StepUnit chain) and utils.words_to_b128 / b128_to_words; '
   'the queues / handshakes of ChecksumCL / ChecksumRTL are not modelled (function of the message only)',
   'the recording sink (subclass of TestSinkCL with the same ready/delay behaviour) replaces the asserting sink in the '
   'repo\'s harnesses; a run ends 40 cycles after the expected number of messages arrived (extra messages are recorded)',
-] + c20_pipe.TRUSTED
+] + c20_pipe.TRUSTED + c20_procfl.TRUSTED
 ASSUMPTIONS = [
   'programs are TinyRV0 programs the ISA defines completely: aligned accesses below 1MB, stores only to the data window '
   '0x2000..0x20ff, CSRs mngr2proc (read) / proc2mngr (write) / xcelreg00..31 (read and write, NullXcel attached as in the repo\'s '
   'TestHarness), termination by running into the zero word after the last instruction; illegal words are outside the model and the generator',
   'commit_inst: ProcFL and ProcRTL commit every instruction; ProcCL does not commit `nop` (it never reaches its W stage), '
   'so its count is compared with (instruction count - executed nops)',
-] + c20_pipe.ASSUMPTIONS
+] + c20_pipe.ASSUMPTIONS + c20_procfl.ASSUMPTIONS
 RULE = ('structured random programs (straight-line blocks, forward bne over blocks, down-counter loops nested <= 2, dense RAW '
         'reuse of the last 3 destinations, load-use, store->load same/neighbouring word, pointers through memory, far-base '
         'addressing with negative offsets, csrr/csrw in loops, register-file dump epilogue) + far-branch family (taken bne with '
@@ -162,6 +168,7 @@ def check_encoding(ck, n):
     elif e != str(a):
       ck.disagreement('Model.encode≈tinyrv0_encoding.assemble_inst', case, e, str(a))
   decode_words(ck, words, 'random')
+  c20_procfl.check_fields(ck, words)
 
 def decode_words(ck, words, label):
   dec = ck.drv('rv').batch([leanio.line('rv', 'decode', w) for w in words])
@@ -185,6 +192,7 @@ def exhaustive_decode(ck, quick):
   words = [(f7 << 25) | (5 << 20) | (rs1 << 15) | (f3 << 12) | (rd << 7) | opc
            for opc in range(128) for f3 in range(8) for f7 in f7s for rd, rs1 in regs]
   decode_words(ck, words, 'table')
+  c20_procfl.check_fields(ck, words[::3] if quick else words)
   ck.extra_cov['exhaustive_part'] = (f'decode decision table: all 128 opcodes x 8 funct3 x funct7 in {[hex(x) for x in f7s]} x '
                                      f'{len(regs)} (rd, rs1) classes = {len(words)} words')
 
@@ -284,7 +292,7 @@ def first_diff(a, b):
 def obs_of_ref(ref):
   return {'out': ref['out'], 'icount': ref['icount'], 'stop': ref['stop'], 'pc': ref['pc']}
 
-def eval_program(ck, pr, model_reply, cfgs, fuel):
+def eval_program(ck, pr, model_reply, cfgs, fuel, gen=None):
   """run one program under each timing config on the three levels; oracle first, model second"""
   ref = pr['ref']; m = parse_model(model_reply)
   n = (1 << 20) - 1
@@ -314,7 +322,9 @@ def eval_program(ck, pr, model_reply, cfgs, fuel):
                      {'observed_vs_isa': [list(b) for b in bad], 'cycles': r['cycles'],
                       'model': {'out': m['out'][:200], 'icount': m['icount'], 'stop': m['stop']},
                       'oracle': 'Python TinyRV0 interpreter written from tinyrv0-isa.md (c20_util.isa_run)'})
-      elif not model_ok:
+      elif gen is not None and level in gen:
+        c20_procfl.compare_with_proc(ck, case, gen[level], r, level, model_image)
+      if not bad and not model_ok:
         ck.disagreement('Model.run≈Proc' + level, case,
                         {'out': m['out'][:200], 'icount': m['icount'], 'stop': m['stop'], 'pc': m['pc'], 'regs': m['regs'], 'xr0': m['xr0'],
                          'mem_diff_vs_impl': first_diff(mimg, r['mem'])},
@@ -357,6 +367,8 @@ def check_programs(ck, nprog, ncfg, sizes, fuel, nfar=0, far_ncfg=1, nalias=0, n
     progs.append(u.gen_program(rng, rng.choice(sizes), fuel))
   ck.hist('generator', 'rejected_attempts', sum(max(0, p['attempts'] - 1) for p in progs))
   replies = ck.drv('rv').batch([model_run_line(p, fuel + 10) for p in progs])
+  glines = [c20_procfl.gen_lines(p, fuel + 10) for p in progs]
+  gfl = ck.drv('procfl').batch([a for a, _ in glines]); gcl = ck.drv('procfl').batch([b for _, b in glines])
   enc_lines = []; spans = []
   for p in progs:
     k0 = len(enc_lines)
@@ -364,12 +376,14 @@ def check_programs(ck, nprog, ncfg, sizes, fuel, nfar=0, far_ncfg=1, nalias=0, n
       enc_lines.append(leanio.line('rv', 'encode', *model_fields(ins[1:])))
     spans.append((k0, len(enc_lines)))
   enc = ck.drv('rv').batch(enc_lines)
-  for p, rep, (a, b) in zip(progs, replies, spans):
+  for p, rep, (a, b), rfl, rcl in zip(progs, replies, spans, gfl, gcl):
     if p['insts']: check_assembled(ck, p, enc[a:b])
+    gen = {'FL': c20_procfl.parse_gen(rfl), 'CL': c20_procfl.parse_gen(rcl)}
+    for level in ('FL', 'CL'): c20_procfl.check_gen_vs_oracle(ck, p, gen[level], level, model_image)
     if p.get('cfgs'): cfgs = p['cfgs']
     elif p.get('tight_cfgs'): cfgs = [rand_cfg(rng, tight=(k == 0)) for k in range(p['tight_cfgs'])]
     else: cfgs = [rand_cfg(rng, tight=(k == 0 and rng.random() < 0.7)) for k in range(ncfg)]
-    eval_program(ck, p, rep, cfgs, fuel)
+    eval_program(ck, p, rep, cfgs, fuel, gen)
     if len(ck.violations) > 20: break
 
 #=========================================================================
@@ -413,8 +427,15 @@ def check_cksum(ck, n):
 
 def pregen(ck):
   """translator-based tie for the pipeline: regenerate lean/PymtlVerif/Gen/PipeGen.lean from the current ProcCtrlRTL / ProcDpathRTL /
-  MiscRTL sources (tools/py2lean_pipe.py); Props/C20pGen.lean then re-proves generated = Model/Pipe.lean"""
-  return c20_pipe.pregen(ck)
+  MiscRTL sources (tools/py2lean_pipe.py); Props/C20pGen.lean then re-proves generated = Model/Pipe.lean.  Likewise
+  Gen/ProcFLGen.lean / ProcCLGen.lean from tinyrv0_encoding.py / ProcFL.py / ProcCL.py (tools/py2lean_procfl.py; Props/C20fGen.lean, C20cGen.lean)"""
+  notes, errs = [], []
+  for f in (c20_pipe.pregen, c20_procfl.pregen):
+    try: notes += list(f(ck) or [])
+    except InfraError: raise
+    except Exception as e: errs.append(f'{type(e).__name__}: {e}')
+  if errs: raise RuntimeError(' || '.join(errs))
+  return notes
 
 def run(ck):
   quick = ck.tier == 'quick'
@@ -430,6 +451,7 @@ def replay(ck, data):
   if c is None:
     print('no failing input recorded'); return 0
   if c.get('part') in ('pipe', 'pipe-reset'): return c20_pipe.replay(ck, data)
+  if c.get('part') == 'fields': return c20_procfl.replay_fields(ck, c['word'])
   if c.get('part') == 'program':
     text, inp, cfg, level = c['text'], c['inp'], c['cfg'], c['level']
     words = u.image_words(u.assemble(text))
